@@ -126,13 +126,24 @@ def readableMetadata : Metadata → Bool
   | .keyValue k (.text v) => k == "Payee" && cleanTagValue v
   | _ => false
 
+def readableCost : Option Exchange → Bool
+  | some x => readableExchange x
+  | none => true
+
+/-- the amount part of a posting as the importer writes it: plain amount, optional `@ rate`, no lot -/
+def readablePostingAmount (a : PostingAmount) : Bool :=
+  readableVExpr a.amount && readableCost a.cost && a.lot.price.isNone && a.lot.date.isNone && a.lot.note.isNone
+
+def readableBalance : Option VExpr → Bool
+  | some b => readableVExpr b
+  | none => true
+
 def readablePosting (p : Posting) : Bool :=
   cleanAccount p.account &&
   (match p.amount with
-    | some a => readableVExpr a.amount && (match a.cost with | some x => readableExchange x | none => true) &&
-                a.lot.price.isNone && a.lot.date.isNone && a.lot.note.isNone
+    | some a => readablePostingAmount a
     | none => false) &&
-  (match p.balance with | some b => readableVExpr b | none => true) &&
+  readableBalance p.balance &&
   p.metadata.all readableMetadata
 
 /-- **ReadableTree**: every text field of the transaction is in the class its place in the syntax can carry. -/
@@ -161,5 +172,18 @@ def matching (cap : Captures) (rules : List Rule) (r : Record) : List Rule := ma
 def Txn.withFragment (t : Txn) (frag : Fragment) : Txn :=
   let t := t.destAccountOption frag.account
   if !frag.cleared then t.setClearState .pending else t
+
+/-- the loop of `ImportCmd::run`: `for xact in xacts { xact.to_double_entry(&account)?; … }` -/
+def toDoubleEntries (src : String) : List Txn → Outcome ImportErr (List Transaction)
+  | [] => .ok []
+  | t :: rest =>
+    match t.toDoubleEntry src with
+    | .ok tr =>
+      (match toDoubleEntries src rest with
+       | .ok trs => .ok (tr :: trs)
+       | e => e)
+    | .err e => .err e
+    | .panic s => .panic s
+    | .fuelOut => .fuelOut
 
 end Okane.Import
